@@ -221,7 +221,7 @@ def _violation_matches(res, prop, vclass):
     return None
 
 
-def minimise(sim, plan, violation, max_evals):
+def minimise(sim, plan, violation, max_evals, deadline=None):
     prop, vclass = violation["property"], violation["class"]
 
     def still_fails(cand):
@@ -233,7 +233,7 @@ def minimise(sim, plan, violation, max_evals):
 
     best, evals = shrink_mod.shrink_plan(
         plan, still_fails, lambda p: sim.simplifiers(p, prop),
-        well_formed=getattr(sim, "well_formed", None), max_evals=max_evals)
+        well_formed=getattr(sim, "well_formed", None), max_evals=max_evals, deadline=deadline)
     res = sim.execute(best)
     v = _violation_matches(res, prop, vclass)
     if v is None:  # cannot happen if execution is deterministic
@@ -406,7 +406,9 @@ def check(prop, tier, base_seed, workers=None):
                                      "shrink_evals": 0, "ops_before": len(doc["plan"]["ops"]),
                                      "ops_after": len(doc["plan"]["ops"])})
     print("regression replays: %d executed, %d failing" % (regress_n, len(regress_hits)))
-    hard_wall = wall_cap + max(60.0, wall_cap / 4)
+    hard_wall = wall_cap + max(45.0, wall_cap / 4)
+    # minimisation is a courtesy, the verdict is not: no shrink evaluation starts later than this
+    shrink_deadline = t_start + wall_cap + max(70.0, wall_cap / 2)
     if regress_hits:
         # the verdict is settled: say so now (a tree that fails its regression replays may
         # well hang elsewhere), and spend only a token budget on the batch
@@ -438,7 +440,8 @@ def check(prop, tier, base_seed, workers=None):
         if _violation_matches(first, prop, vclass) is not None:
             # reproducible in this process: minimise here
             try:
-                mbest, mv, evals = minimise(sim, plan, item["violation"], budget.get("shrink_evals", 400))
+                mbest, mv, evals = minimise(sim, plan, item["violation"], budget.get("shrink_evals", 400),
+                                            deadline=shrink_deadline)
                 cands.append((mbest, mv))
             except HarnessError:
                 pass  # flaky in this process: address-dependent, handled below
